@@ -341,6 +341,9 @@ pub enum Op {
     /// harness catches). What happens in this world afterwards is not specified — the point is that OTHER worlds of the
     /// process must behave as if it had not happened (C20).
     LazyPanic,
+    /// After a caught panic the world must still be usable: queues a lazy action that sets a flag, calls `maintain`,
+    /// and reports `ran` / `notrun` (outside the model; only generated after `lazy_panic; maintain`).
+    LazyProbe,
     /// Probe outside the model: `entry_inner(2^24 + 1).or_insert(v)` — the mask refuses the index (panic inside
     /// `BitSet::add`), and the value handed over must still be destroyed exactly once (C08; no destructor panics).
     /// Only generated as the last op before `drop_world`, for kinds whose storage tolerates the far index cheaply.
@@ -431,6 +434,7 @@ pub fn show_op(op: &Op) -> String {
         Op::Generic(inner) => { s.push('g'); s.push_str(&show_op(inner)); }
         Op::EntryFar(k, v) => write!(s, "entry_far {} {}", k, v).unwrap(),
         Op::LazyPanic => s.push_str("lazy_panic"),
+        Op::LazyProbe => s.push_str("lazy_probe"),
         Op::Dump => s.push_str("dump"),
     }
     s
@@ -537,6 +541,7 @@ pub fn parse_ops(ts: &[&str]) -> Option<Op> {
         }
         ["entry_far", k, v] => Op::EntryFar(k.parse().ok()?, v.parse().ok()?),
         ["lazy_panic"] => Op::LazyPanic,
+        ["lazy_probe"] => Op::LazyProbe,
         ["dump"] => Op::Dump,
         _ => return None,
     })
@@ -983,6 +988,13 @@ fn exec_inner(world: &mut World, ctx: &Shared, op: &Op) -> String {
             world.read_resource::<LazyUpdate>().exec(|_| panic!("verif: lazy action panics"));
             "ok".into()
         }
+        Op::LazyProbe => {
+            let flag = Arc::new(std::sync::atomic::AtomicBool::new(false));
+            let f2 = flag.clone();
+            world.read_resource::<LazyUpdate>().exec(move |_| f2.store(true, std::sync::atomic::Ordering::SeqCst));
+            let r = catch_unwind(AssertUnwindSafe(|| world.maintain()));
+            if r.is_err() { "panic".into() } else if flag.load(std::sync::atomic::Ordering::SeqCst) { "ran".into() } else { "notrun".into() }
+        }
         Op::EntryFar(k, v) => {
             if !is_reg(ctx, *k) { return "nostore".into(); }
             if ![0usize, 3, 4, 6, 8].contains(k) { return "skip".into(); }
@@ -1353,6 +1365,7 @@ pub fn gen_store_script(rng: &mut Rng, len: usize, p: &StoreProfile) -> Vec<Op> 
         // a panicking lazy action ends the case (nothing after the final maintain is compared)
         ops.push(Op::LazyPanic);
         ops.push(Op::Maintain);
+        ops.push(Op::LazyProbe);
         return ops;
     }
     if p.drop_world {
